@@ -57,6 +57,28 @@ def parse_file(path, settings, source_name):
     return {'txns': out}
 
 
+def parse_reuse(path, settings):
+    """One resolved format spec used for two reads under two source names (a library user, `inspect`-like tools): the reader
+    takes the spec as input and must hand back, each time, the rows under the name it was called with."""
+    from tally.config_loader import resolve_source_format
+    from tally.parsers import parse_generic_csv
+    src = resolve_source_format(dict(settings))
+    spec = src['_format_spec']
+    before = repr(sorted((k, repr(v)) for k, v in vars(spec).items()))
+    reads = []
+    for nm in ('First Reader', 'Second Reader'):
+        try:
+            txns = parse_generic_csv(path, spec, [], source_name=nm, decimal_separator=src.get('decimal_separator', '.'))
+        except Exception as e:
+            reads.append({'exception': '%s: %s' % (type(e).__name__, e)})
+            continue
+        reads.append({'txns': [{'description': t['raw_description'], 'date': t['date'].strftime('%Y-%m-%d'),
+                                'amount': t['amount'] if math.isfinite(t['amount']) else repr(t['amount']), 'source': t['source'],
+                                'field': t.get('field')} for t in txns]})
+    after = repr(sorted((k, repr(v)) for k, v in vars(spec).items()))
+    return {'reads': reads, 'spec_unchanged': before == after, 'spec_before': before[:400], 'spec_after': after[:400]}
+
+
 def parse_two(path_a, settings_a, path_b, settings_b):
     """Two sources read one after the other in one process (what `tally up` does); returns the second one's result."""
     parse_file(path_a, settings_a, settings_a.get('name'))
@@ -144,6 +166,9 @@ def damage(rng, lay, row, cls):
     return st.join_cells(lay, cells)
 
 
+ODD_SEPARATORS = ['\x0b', '\x0c', '\x1c', '\x1d', '\x1e', '\x85', '\u2028', '\u2029']
+
+
 def build_case(rng, tier):
     lay = st.gen_layout(rng, rich=True)
     rich = lay['delimiter'] != 'regex'
@@ -161,6 +186,13 @@ def build_case(rng, tier):
         for r in rows:
             r['desc'] = ' '.join(r['desc'].split())
             r['loc'] = ''
+    if rng.random() < 0.3:
+        # characters that some line splitters (str.splitlines) take for line ends and the file reader does not:
+        # inside a description they are ordinary characters of the cell
+        r = rng.choice(rows)
+        if '\n' not in r['desc'] and ' ' in r['desc'].strip():
+            head, tail = r['desc'].strip().split(' ', 1)
+            r['desc'] = r['desc'].replace(head + ' ' + tail, head + rng.choice(ODD_SEPARATORS) + tail, 1)
     st.fill_caps(rng, lay, rows)
     for r in rows:
         if r.get('caps_override') and len(lay['extras']) > 1:
@@ -283,6 +315,23 @@ def execute(case, scratch):
                                               % (len(exp), len(got), j, util.canon(got[j]) if j < len(got) else None,
                                                  util.canon(exp[j]) if j < len(exp) else None),
                                    'schedule': sched(None)})
+        if 'txns' in base:
+            # the same spec object used for two reads under two names
+            util.write_world(world, {'data/s.csv': case['text']})
+            r = proc.run_func(world, lambda: parse_reuse(os.path.join(world, 'data/s.csv'), case['settings']), {'net': 'down'}, ctl_parent=ctlp)
+            if r.exit != 0 or r.result is None:
+                raise proc.HarnessError('reuse parse process failed: %s' % r.err[-1500:])
+            count['parses'] += 2
+            ru = r.result
+            log.append(['reuse', util.digest(ru)])
+            for nm, rd in zip(('First Reader', 'Second Reader'), ru['reads']):
+                want = [dict(t, source=nm) for t in base['txns']]
+                if rd.get('txns') != want:
+                    violations.append({'invariant': 'SEQ', 'signature': {'what': 'read-with-reused-spec-differs', 'which': nm.split()[0].lower()},
+                                       'witness': 'one format spec, two reads of the same file as "First Reader" then "Second Reader": the %s gives %s, '
+                                                  'a read on its own gives %s' % (nm, util.canon(rd)[:300], util.canon(want)[:300]),
+                                       'schedule': sched(None)})
+                    break
         by_id = {}
         for g in got:
             by_id.setdefault(rid_of(g['description']), []).append(g)
